@@ -151,10 +151,13 @@ func verifPubSetup(cfg verifPubCfg) *verifPubWorld {
 	if w.authorIn {
 		orig = t.original(w.author)
 	}
-	if cfg.kind == verifKindChn && verifNondetBool("addressedByChannelName") {
+	badAddr := false
+	if (cfg.kind == verifKindChn || cfg.kind == verifKindGrp) && verifNondetBool("addressedByChannelName") {
 		// a regular subscriber may address the channel-enabled group by its channel spelling:
-		// expandTopicName routes chnX to the grpX subscription
+		// expandTopicName routes chnX to the grpX subscription. A plain group has no channel spelling:
+		// a publish addressed that way must be refused (recipients would get a topic name they do not know).
 		orig = types.GrpToChn(t.name)
+		badAddr = cfg.kind == verifKindGrp
 	}
 	w.msg = &ClientComMessage{
 		Pub:       &MsgClientPub{Id: "req-1", Topic: orig, NoEcho: w.noEcho, Head: w.head, Content: w.content},
@@ -172,7 +175,7 @@ func verifPubSetup(cfg verifPubCfg) *verifPubWorld {
 	inactive := t.status&(topicStatusPaused|topicStatusMarkedDeleted) != 0
 	readOnly := t.status&topicStatusReadOnly != 0
 	writer := w.authorIn && (apud.modeWant&apud.modeGiven).IsWriter()
-	w.expectAcc = !inactive && !readOnly && (cfg.kind == verifKindSys || writer)
+	w.expectAcc = !inactive && !readOnly && (cfg.kind == verifKindSys || writer) && !badAddr
 	return w
 }
 
